@@ -367,12 +367,17 @@ def _nested_const_tuple():
   return tuple([tuple([1, 1]), tuple([2, 2]), 'k'])
 
 
-def _sharing_member(slots, lv, dict_rev, tshare, wrap_b):
+def _sharing_member(slots, lv, dict_rev, tshare, wrap_b, nk=0):
   """root = g3(x=[q?], y={'k1': q?, 'k2': C(g2, x=q?, y=q?)}, z=(t, q?, t')) over three equal nodes q0..q2.
 
   `slots` assigns one of the three (value-equal, distinct) nodes to each of the five positions;
   `tshare` makes t' the same object as t (else an equal, distinct nested constant tuple)."""
-  q = [fdl.Config(fam.g0, x=lv, y=[lv]) for _ in range(3)]
+  if nk == 1:
+    q = [{7, 8} for _ in range(3)]                 # opaque to daglish (no traverser), value equality, not internable
+  elif nk == 2:
+    q = [[lv, (1, 2)] for _ in range(3)]
+  else:
+    q = [fdl.Config(fam.g0, x=lv, y=[lv]) for _ in range(3)]
   inner = fdl.Config(fam.g2, x=q[slots[2]], y=q[slots[3]])
   items = [('k1', q[slots[1]]), ('k2', inner)]
   if dict_rev:
@@ -392,13 +397,14 @@ def _same_partition(a, b):
 
 
 def c06_sharing(x0: int, x1: int, x2: int, x3: int, x4: int, y0: int, y1: int, y2: int, y3: int, y4: int,
-                rev: bool, tsx: bool, tsy: bool, wb: bool, lv: int) -> bool:
+                rev: bool, tsx: bool, tsy: bool, wb: bool, nk: int, lv: int) -> bool:
   """
   Two value-equal configurations that differ only in which of three equal nodes sits at each of five positions
   (root list, dict value, nested config twice, tuple): == holds iff the two aliasing patterns are the same
   partition (both patterns range over restricted-growth strings, i.e. one representative per partition - the three
   nodes are built identically, so renaming them is a symmetry), whatever the dict insertion order and whether equal nested constant tuples are one object or two.
-  require: 0 <= x0 <= 2 and 0 <= x1 <= 2 and 0 <= x2 <= 2 and 0 <= x3 <= 2 and 0 <= x4 <= 2
+  nk: what the three equal objects are - 0 Configs, 1 sets (leaves for daglish), 2 lists.
+  require: 0 <= x0 <= 2 and 0 <= x1 <= 2 and 0 <= x2 <= 2 and 0 <= x3 <= 2 and 0 <= x4 <= 2 and 0 <= nk <= 2
   require: y0 == 0 and 0 <= y1 <= 1 and 0 <= y2 <= min(max(y0, y1) + 1, 2) and 0 <= y3 <= min(max(y0, y1, y2) + 1, 2) and 0 <= y4 <= min(max(y0, y1, y2, y3) + 1, 2)
   """
   def conc(t):
@@ -408,8 +414,9 @@ def c06_sharing(x0: int, x1: int, x2: int, x3: int, x4: int, y0: int, y1: int, y
     return 0
   xs = [conc(v) for v in (x0, x1, x2, x3, x4)]
   ys = [conc(v) for v in (y0, y1, y2, y3, y4)]
-  a = _sharing_member(xs, lv, False, tsx, wb)
-  b = _sharing_member(ys, lv, rev, tsy, wb)
+  nk = conc(nk)
+  a = _sharing_member(xs, lv, False, tsx, wb, nk)
+  b = _sharing_member(ys, lv, rev, tsy, wb, nk)
   try:
     ab, ba, nab = _eq_all(a, b)
     inner_ab = (a.y['k2'] == b.y['k2'])
@@ -486,12 +493,12 @@ def obligations(tier, seed):
       continue
     fix = dict(x0=xs[0], x1=xs[1], x2=xs[2], x3=xs[3], x4=xs[4])
     if tier == 'quick':
-      fix.update(wb=bool(sum(xs) % 2), tsx=bool(xs[1] % 2))
-    scubes.append(Cube('x' + ''.join(map(str, xs)), [], fix, est=41 * 4))
+      fix.update(wb=bool(sum(xs) % 2), tsx=bool(xs[1] % 2), nk=(sum(xs) + xs[3]) % 3)
+    scubes.append(Cube('x' + ''.join(map(str, xs)), [], fix, est=41 * 4 * (1 if tier == 'quick' else 3)))
   return [
       Obligation('c06_sharing', c06_sharing, scubes, timeout=t, path_timeout=30,
-                 smoke=dict(x0=0, x1=1, x2=0, x3=0, x4=1, y0=2, y1=0, y2=2, y3=2, y4=0, rev=True, tsx=True, tsy=False, wb=True, lv=4),
-                 extra_smokes=[dict(x0=0, x1=1, x2=0, x3=0, x4=1, y0=0, y1=1, y2=1, y3=1, y4=1, rev=False, tsx=False, tsy=True, wb=False, lv=4)]),
+                 smoke=dict(x0=0, x1=1, x2=0, x3=0, x4=1, y0=2, y1=0, y2=2, y3=2, y4=0, rev=True, tsx=True, tsy=False, wb=True, nk=0, lv=4),
+                 extra_smokes=[dict(x0=0, x1=1, x2=0, x3=0, x4=1, y0=0, y1=1, y2=1, y3=1, y4=1, rev=False, tsx=False, tsy=True, wb=False, nk=1, lv=4), dict(x0=0, x1=0, x2=1, x3=1, x4=2, y0=0, y1=1, y2=2, y3=2, y4=2, rev=True, tsx=False, tsy=True, wb=True, nk=2, lv=4)]),
       Obligation('c06_rewrites', c06_rewrites, cubes, timeout=t, path_timeout=30,
                  smoke=dict(r1=1, r2=7, w=1, t1x=0, t1y=0, t2x=1, t2y=0, lv=3, ls='a'),
                  extra_smokes=[dict(r1=r, r2=(r + 3) % 8, w=3, t1x=0, t1y=-1, t2x=0, t2y=0, lv=3, ls='') for r in range(8)]),
